@@ -5,6 +5,8 @@ import Tahoe.Spans.RegModel
     i:S+L,S+L,… (self := self & other)  u:… (self := self + other)  m:… (self := self - other)  d (dump).
     `dspans op op …` where op ∈ a:OFF:HEX (add) r:S:L (remove) g:S:L (get) p:S:L (pop) l (len)
     s (get_spans) d (dump); a chunk list prints as OFF=HEX,OFF=HEX,… (`-` if empty), `None` as N.
+    `strace op …` / `dtrace op …`: the same op syntax (a r i u m c / a r g p); output = only the answers of
+    the queries (c / g, p) in order, computed by the model's `strace` / `dtrace`; `none` if there are none.
     `reg op op …`: named values r0..r3 (Spans) and d0..d1 (DataSpans), all empty at the start; op ∈
     add:K:S:L rm:K:S:L and:K:I:J sub:K:I:J or:K:I:J iadd:I:J isub:I:J copy:K:I set:K:S+L,S+L,… one:K:S:L
     dadd:D:OFF:HEX drm:D:S:L dpop:D:S:L dcopy:D:E gs:K:D (rK = dD.get_spans())
@@ -24,14 +26,17 @@ def parseSpans (t : String) : Option (List Span) :=
 
 def stepOp (s : List Span) (op : String) : Option (List Span × String) :=
   match op.splitOn ":" with
-  | ["a", a, l] => do let s' := add s (← a.toNat?) (← l.toNat?); pure (s', showSpans s')
-  | ["r", a, l] => do let s' := remove s (← a.toNat?) (← l.toNat?); pure (s', showSpans s')
-  | ["c", a, l] => do pure (s, if containsRange s (← a.toNat?) (← l.toNat?) then "T" else "F")
+  | ["a", a, l] => do let s' := (sstepQ s (.op (.add (← a.toNat?) (← l.toNat?)))).1; pure (s', showSpans s')
+  | ["r", a, l] => do let s' := (sstepQ s (.op (.remove (← a.toNat?) (← l.toNat?)))).1; pure (s', showSpans s')
+  | ["c", a, l] => do
+      match (sstepQ s (.contains (← a.toNat?) (← l.toNat?))).2 with
+      | some b => pure (s, if b then "T" else "F")
+      | none => none
   | ["l"] => some (s, toString (len s))
   | ["d"] => some (s, showSpans s)
-  | ["i", o] => do let s' := inter s (← parseSpans o); pure (s', showSpans s')
-  | ["u", o] => do let s' := addAll s (← parseSpans o); pure (s', showSpans s')
-  | ["m", o] => do let s' := removeAll s (← parseSpans o); pure (s', showSpans s')
+  | ["i", o] => do let s' := (sstepQ s (.op (.inter (← parseSpans o)))).1; pure (s', showSpans s')
+  | ["u", o] => do let s' := (sstepQ s (.op (.union (← parseSpans o)))).1; pure (s', showSpans s')
+  | ["m", o] => do let s' := (sstepQ s (.op (.diff (← parseSpans o)))).1; pure (s', showSpans s')
   | _ => none
 
 def runOps (s : List Span) (acc : List String) : List String → Option (List String)
@@ -49,12 +54,17 @@ def showOpt : Option (List UInt8) → String
 
 def stepDOp (s : List Chunk) (op : String) : Option (List Chunk × String) :=
   match op.splitOn ":" with
-  | ["a", a, h] => do let s' := dadd s (← a.toNat?) (← bytesOfHex h); pure (s', showChunks s')
-  | ["r", a, l] => do let s' := dremove (← a.toNat?) (← l.toNat?) s; pure (s', showChunks s')
-  | ["g", a, l] => do pure (s, showOpt (dget (← a.toNat?) (← l.toNat?) s))
+  | ["a", a, h] => do let s' := (dstepQ s (.op (.add (← a.toNat?) (← bytesOfHex h)))).1; pure (s', showChunks s')
+  | ["r", a, l] => do let s' := (dstepQ s (.op (.remove (← a.toNat?) (← l.toNat?)))).1; pure (s', showChunks s')
+  | ["g", a, l] => do
+      match (dstepQ s (.get (← a.toNat?) (← l.toNat?))).2 with
+      | some r => pure (s, showOpt r)
+      | none => none
   | ["p", a, l] => do
-      let r := dpop s (← a.toNat?) (← l.toNat?)
-      pure (r.2, showOpt r.1 ++ "/" ++ showChunks r.2)
+      let r := dstepQ s (.op (.pop (← a.toNat?) (← l.toNat?)))
+      match r.2 with
+      | some ans => pure (r.1, showOpt ans ++ "/" ++ showChunks r.1)
+      | none => none
   | ["l"] => some (s, toString (dlen s))
   | ["s"] => some (s, showSpans (getSpans s))
   | ["d"] => some (s, showChunks s)
@@ -112,7 +122,35 @@ def runROps (st : RState) (acc : List String) : List String → Option (List Str
       runROps st' (out :: acc) rest
     | none => none
 
+/-- `strace op …` (a r i u m c): only the answers of the whole history, via `strace` -/
+def parseSQ (op : String) : Option SQ :=
+  match op.splitOn ":" with
+  | ["a", a, l] => do pure (.op (.add (← a.toNat?) (← l.toNat?)))
+  | ["r", a, l] => do pure (.op (.remove (← a.toNat?) (← l.toNat?)))
+  | ["i", o] => do pure (.op (.inter (← parseSpans o)))
+  | ["u", o] => do pure (.op (.union (← parseSpans o)))
+  | ["m", o] => do pure (.op (.diff (← parseSpans o)))
+  | ["c", a, l] => do pure (.contains (← a.toNat?) (← l.toNat?))
+  | _ => none
+
+/-- `dtrace op …` (a r g p): only the answers of the whole history, via `dtrace` -/
+def parseDQ (op : String) : Option DQ :=
+  match op.splitOn ":" with
+  | ["a", a, h] => do pure (.op (.add (← a.toNat?) (← bytesOfHex h)))
+  | ["r", a, l] => do pure (.op (.remove (← a.toNat?) (← l.toNat?)))
+  | ["p", a, l] => do pure (.op (.pop (← a.toNat?) (← l.toNat?)))
+  | ["g", a, l] => do pure (.get (← a.toNat?) (← l.toNat?))
+  | _ => none
+
+def showAnswers (l : List String) : String := if l.isEmpty then "none" else ";".intercalate l
+
 def handle : List String → String
+  | "strace" :: ops => match ops.mapM parseSQ with
+    | some qs => showAnswers ((strace [] qs).map (fun b => if b then "T" else "F"))
+    | none => "bad-op"
+  | "dtrace" :: ops => match ops.mapM parseDQ with
+    | some qs => showAnswers ((dtrace [] qs).map showOpt)
+    | none => "bad-op"
   | "reg" :: ops => match runROps RState.empty [] ops with
     | some outs => ";".intercalate outs
     | none => "bad-op"
